@@ -177,6 +177,9 @@ def check(ctx):
     from . import c03
     ctx.absorb(c03._r4, "R9", only=lambda o: "SUNSparseMatrix" in o.key or "cuSparse" in o.key)
     ctx.floor("R9", "sparse matrix constructions", len([o for o in ctx.obs if o.rule == "R9"]), 2)
+    # occurrences count: no set / dict keyed by the species stands between a reactant list and the terms built from it
+    from ..multiplicity import rule as multiplicity_rule
+    multiplicity_rule(ctx, "R10", ['ode'], "the Jacobian")
 
 
 
